@@ -20,6 +20,10 @@ of ops is an arbitrary interleaving of any number of threads. API-level calls (a
                    `legacy = true` is the behaviour before the `fix:` commit (every cell with
                    a name removes *whatever* entry is stored under that name — finding F2);
                    `legacy = false` is the repaired code (only cells with a local id do).
+* `drain a`        `ActorCell::drain()` through any reference, however stale: the status word moves to
+                   `Draining` only from `Starting..Draining` (`fetch_update` with the guard
+                   `f != Unstarted && f < Stopping`); on an actor that is `≥ Stopping` it changes nothing.
+                   (`stop()`/`kill()` only enqueue a message: no step of this model.)
 * `lookup n`, `lookupPid a`, `waitRet a`   observations.
 
 `publish a Stopped` is only enabled once `a`'s cleanup block has finished (`pc = 3`): every
@@ -30,6 +34,7 @@ statement order that C06 pins down. This is the link "unregister precedes publis
 
 namespace Registry
 
+def draining : Nat := 4
 def stopping : Nat := 5
 def stopped : Nat := 6
 
@@ -61,6 +66,7 @@ inductive Op
   | lookup (n : Nat)
   | lookupPid (a : Nat)
   | waitRet (a : Nat)
+  | drain (a : Nat)
   deriving DecidableEq, Repr
 
 inductive Obs
@@ -131,6 +137,12 @@ def step (legacy : Bool) (s : State) : Op → State × Obs
   | .lookup n => (s, .found ((whereIs s n).map (fun a => (a, statusOf s a))))
   | .lookupPid a => (s, .foundPid (if s.pids.contains a then some a else none))
   | .waitRet a => (s, if statusOf s a = stopped then .ok else .bad)
+  | .drain a =>
+    match getA s a with
+    | none => (s, .bad)
+    | some x =>
+      if x.status ≠ 0 ∧ x.status < stopping then (setA s a (fun y => { y with status := draining }), .ok)
+      else (s, .ok)
 
 /-- `PidLifecycleEvent`s broadcast to the `pid_registry::monitor` listeners by one atomic
 region (`true` = `Spawn`, `false` = `Terminate`, with the actor): `register_pid` notifies after a
@@ -159,6 +171,13 @@ def run (legacy : Bool) (s : State) : List Op → State
 def trace (legacy : Bool) (s : State) : List Op → List (Op × Obs)
   | [] => []
   | op :: ops => (op, (step legacy s op).2) :: trace legacy (step legacy s op).1 ops
+
+/-- what anybody can do with a (possibly stale) reference to actor `a` besides spawning: `drain()`,
+and the observations. (`stop()`/`kill()` are not steps of this model at all.) -/
+def isStaleRefOp (a : Nat) : Op → Bool
+  | .drain b => b == a
+  | .lookup _ | .lookupPid _ | .waitRet _ => true
+  | _ => false
 
 /-- a successful registration of name `n` in a trace -/
 def isWin (n : Nat) : Op × Obs → Bool
